@@ -34,6 +34,7 @@ EXPLANATION = (
 )
 NONTRIVIAL_RULE = "processed at least one event that ran an action or changed the configuration"
 BOUNDS = {
+    "resolve_agree": "skeletons with ambiguous keys (CUR8: B.A beside A, custom ids; CUR15: E>D>E, Q>Q, a child named like the machine; CUR9: Z.W beside W); source fixed per item; target = any str of <= L chars that a standard attempt resolves; every configuration/history; both engines must reach the same configuration",
     "engines_seq": "feature machine FM; event sequence of length N (item label) over a 13-letter alphabet, first event fixed per item; 5 guard outcomes symbolic, read lazily",
     "engines_step": "feature machine FM; every non-final legal configuration x recorded history of B in {absent,b1,b2} x context n in [0,3] x one event of the alphabet x guard outcomes",
     "pure_history": "feature machine without service; run GO, NEXT^k (k in {0,1}), LEAVE, HIST, NEXT through sync engine and pure API",
@@ -161,6 +162,11 @@ def _machine(name: str = "FM") -> Any:
 def set_params(p: Dict[str, Any]) -> None:
     global P
     P = p
+    if "sid" in p:
+        from harness import c01 as base
+
+        base.set_params(p)
+        return
     _machine("FM")
     _machine("FMP")
 
@@ -511,7 +517,41 @@ def pure_is_pure(e1: int, e2: int, b1: bool, b2: bool, b3: bool, b4: bool, b5: b
     return verdict(ok)
 
 
-OBLIGATIONS = {"engines_step": engines_step, "pure_history": pure_history, "engines_seq": engines_seq, "pure_seq": pure_seq, "pure_is_pure": pure_is_pure}
+def resolve_agree(c0: int, c1: int, c2: int, c3: int, c4: int, c5: int, hsel: int, tgt: str, reenter: bool) -> bool:
+    """
+    pre: 0 < len(tgt) <= P['maxlen']
+    pre: gate('resolve_agree', c0=c0, c1=c1, c2=c2, c3=c3, c4=c4, c5=c5, hsel=hsel, tgt=tgt, reenter=reenter)
+    post: _
+    """
+    from xstate_statemachine.events import Event
+    from xstate_statemachine.models import TransitionDefinition
+
+    from harness import c01 as base
+
+    sk = base._sk()
+    src = sk.nodes[P["src"]]
+    if not base._resolvable(tgt, src, sk.machine):
+        return verdict(True, nontrivial=False)
+    res: List[Any] = []
+    for eng in (0, 1):
+        pre = base._prestate(sk, eng, [c0, c1, c2, c3, c4, c5], hsel)
+        if pre is None:
+            return verdict(True, nontrivial=False)
+        interp, active, _watch = pre
+        if not any(a is src for a in active):
+            return verdict(True, nontrivial=False)
+        tr = TransitionDefinition("E", {"target": tgt, "reenter": True if reenter else False}, source=src)
+        err = base._run_transition(interp, eng, tr, Event("E"))
+        res.append((err, sorted(n.id for n in interp._active_state_nodes), sorted(n.id for n in active)))
+    ok = res[0][:2] == res[1][:2]
+    if not ok:
+        EXPLAIN.append(f"{sk.sid if hasattr(sk, 'sid') else ''} source {src.id} target {tgt!r} reenter={bool(reenter)} from {res[0][2]}: "
+                       f"sync -> {res[0][1]} ({res[0][0]}), async -> {res[1][1]} ({res[1][0]})")
+    return verdict(ok, nontrivial=res[0][1] != res[0][2])
+
+
+OBLIGATIONS = {"engines_step": engines_step, "pure_history": pure_history, "engines_seq": engines_seq, "pure_seq": pure_seq, "pure_is_pure": pure_is_pure,
+               "resolve_agree": resolve_agree}
 PROBES = {
     "engines_seq": [{"b1": True, "e1": 4, "e2": 4}, {"b1": True, "b3": True}],
 }
@@ -530,4 +570,13 @@ def items(tier: str, seed: int) -> List[Dict[str, Any]]:
     out.append({"ob": "pure_is_pure", "params": {}, "timeout": 200, "label": "pure_is_pure"})
     out.append({"ob": "pure_history", "params": {}, "timeout": 200, "label": "pure_history"})
     out.append({"ob": "engines_step", "params": {}, "timeout": 280 if quick else 900, "label": "engines_step"})
+    # the two engines resolve every target spelling to the same state: skeletons with ambiguous keys
+    from vf import skeletons
+
+    for sid, srcs in (("CUR8", (0, 1, 5, 6)), ("CUR15", (2, 3, 4, 9, 13)), ("CUR9", (0, 1, 8))):
+        spec = skeletons.CURATED[sid]
+        L = 4 if quick else 6
+        for src in srcs:
+            out.append({"ob": "resolve_agree", "params": {"sid": sid, "spec": spec, "src": src, "maxlen": L}, "timeout": 300 if quick else 1500,
+                        "path_timeout": 40, "label": f"resolve_agree[{sid},src={src},L={L}]"})
     return out
